@@ -19,6 +19,7 @@ Kinds == <<"Int", "IntMin", "IntMax", "String", "Bool", "Float", "Unit", "ListIn
 
 F(n, ns, ps, eff) == [n |-> n, ns |-> ns, recv |-> "", ps |-> ps, eff |-> eff]
 M(n, recv, ps)    == [n |-> n, ns |-> "", recv |-> recv, ps |-> ps, eff |-> "pure"]
+ME(n, recv, ps, eff) == [n |-> n, ns |-> "", recv |-> recv, ps |-> ps, eff |-> eff]
 
 Funs == <<
   F("print", "", <<"String">>, "print"), F("println", "", <<"String">>, "print"),
@@ -33,7 +34,7 @@ Funs == <<
   F("write_file", "fs", <<"String", "Path">>, "fs"), F("write_bytes", "fs", <<"ListInt", "Path">>, "fs"),
   F("copy_file", "fs", <<"Path", "Path">>, "fs"), F("remove_file", "fs", <<"Path">>, "fs"),
   F("list_directory", "fs", <<"Path">>, "fs"), F("working_directory", "fs", <<>>, "env"),
-  F("set_working_directory", "fs", <<"Path">>, "fs"), F("create_dir", "fs", <<"Path">>, "fs"),
+  F("set_working_directory", "fs", <<"Path">>, "env"), F("create_dir", "fs", <<"Path">>, "fs"),
   F("remove_dir", "fs", <<"Path">>, "fs"),
   F("run", "shell", <<"String", "ListString">>, "proc"), F("get_env", "shell", <<"String">>, "env"),
   F("is_tty", "shell", <<>>, "env"),
@@ -62,8 +63,19 @@ Methods == <<
   M("get", "Dict", <<"String">>), M("set", "Dict", <<"String", "Any">>), M("items", "Dict", <<>>),
   M("remove", "Dict", <<"String">>),
   M("parent", "Path", <<>>), M("join", "Path", <<"String">>), M("extension", "Path", <<>>),
-  M("file_name", "Path", <<>>), M("set_extension", "Path", <<"String">>)
+  M("file_name", "Path", <<>>), M("set_extension", "Path", <<"String">>),
+  ME("exists", "Path", <<>>, "fs"), ME("info", "Path", <<>>, "fs")
 >>
+
+\* Effects that sandboxed mode (playground-run, sandboxed-test) must refuse (C24)
+Forbidden == {"fs", "proc", "stdin"}
+\* In the sandbox a call with a forbidden effect never yields a value and never
+\* has the effect: it ends the evaluation with the sandbox error (an ill-formed
+\* call may be refused as ill-formed instead).
+SandboxExpect(c) ==
+  IF c.eff \in Forbidden
+  THEN (IF c.expect = "error" THEN "sandbox_or_error" ELSE "sandbox")
+  ELSE c.expect
 
 \* Does a value of kind k satisfy a parameter of kind p?
 Accepts(p, k) ==
